@@ -243,6 +243,8 @@ def cases(tier, rng):
     for pat in TEE_PATTERNS:
         for nchild in (2, 3):
             yield {"tool": "tee", "family": "tee", "pattern": pat, "children": nchild, "sizes": list(sizes)}
+            if pat in ("close-started-child", "child-killed-by-athrow", "lockstep"):
+                yield {"tool": "tee", "family": "tee", "pattern": pat, "children": nchild, "sizes": list(sizes), "noclose": True}
 
 
 def _run_gen(name, n):
@@ -278,9 +280,22 @@ def _run_agg(name, n):
     return state["worst"]
 
 
-def _run_tee(pattern, nchild, n):
+class NoCloseSource:
+    """class-based async source WITHOUT aclose: there is nothing to close, the children's bookkeeping must still be done"""
+
+    def __init__(self, n, refs):
+        self._inner = Source(n, refs)
+
+    def __aiter__(self):
+        return self
+
+    def __anext__(self):
+        return self._inner.__anext__()
+
+
+def _run_tee(pattern, nchild, n, noclose=False):
     refs = []
-    src = Source(n, refs)
+    src = NoCloseSource(n, refs) if noclose else Source(n, refs)
     t = A.tee(src, n=nchild)
     kids = list(t)
     pos = [0] * nchild
@@ -361,7 +376,7 @@ def observe(case):
         elif case["family"] == "groupby":
             runs.append(_run_groupby(case["key"], case["shape"], case["use"], n))
         else:
-            runs.append(_run_tee(case["pattern"], case["children"], n))
+            runs.append(_run_tee(case["pattern"], case["children"], n, case.get("noclose", False)))
     out["runs"] = runs
     return out
 
